@@ -533,6 +533,9 @@ def write_behaviours(behs, path):
 @prop("C12", "model_checking")
 def c12(res, tier, seed, replay):
     vlib.build_harness()
+    if replay and "behaviours" not in json.load(open(os.path.join(replay, "violation.json")))["meta"]:
+        replay_run(res, replay, default_module="BackupTrace")
+        return
     if replay:
         meta = json.load(open(os.path.join(replay, "violation.json")))["meta"]
         behs = [json.loads(l) for l in open(os.path.join(replay, meta["behaviours"]))]
@@ -616,11 +619,37 @@ def c12(res, tier, seed, replay):
                 except Inconclusive:
                     raise
     res.coverage["behaviours_with_protocol_drift"] = tot_drift
+    if not replay:
+        # what the idle routine does besides unloading: backups (rotation rule and content of every backup file)
+        design_check(res, "Backup", "Backup.cfg")
+        design_check(res, "Backup", "Backup.f1.cfg")
+        expect_design_violation(res, "Backup", "Backup.neg.cfg", "FreshWhenTaken", "rotation removes from the wrong end")
+        bruns = []
+        for i, (freq, count) in enumerate([(1, 1), (1, 2), (2, 3)] if tier == "quick" else [(1, 1), (1, 3), (2, 1), (1, 2), (2, 3), (3, 2)]):
+            bruns.append({"name": f"backup-f{freq}-c{count}", "timeout": 900,
+                          "args": ["-mode", "backup", "-config", "scalars-ne" if i % 2 == 0 else "kitchen", "-backup-freq", freq, "-backup-count", count,
+                                   "-seed", seed * 100 + 30 + i, "-hist", 1 if tier == "quick" else 3, "-batches", 45 if tier == "quick" else 90]})
+        bres = drive_and_validate(res, bruns, module="BackupTrace", workers=6)
+        ncalls = 0
+        for r in bres:
+            if os.path.exists(r["trace"]):
+                with open(r["trace"]) as f:
+                    ncalls += sum(1 for line in f if '"ev":"BBackup"' in line)
+        res.coverage["backup_calls_validated"] = ncalls
+
+        def bmut(e):
+            if e["ev"] == "BBackup" and e["files"]:
+                e["files"][-1]["dig"] = "n0-corrupt"
+                return True
+            return False
+        binding_selftest(res, bres, bmut, module="BackupTrace", what="content digest of the newest backup file altered")
     res.coverage["rule"] = ("TLC checks ShardMgr.tla exhaustively (3 requests, 2 deletions, timer at any time; safety, deadlock "
                             "freedom, liveness under fairness) and, in simulation mode, generates behaviours that are forced on a "
                             "real cluster.ShardManager through the H3 yield points (idle timer fired on demand, with and without "
                             "backups); the recorded open/close/run/remove/return events are validated by TLC against MgrMonitor.tla; "
-                            "a call that never returns is confirmed by a goroutine dump; a final probe request must succeed")
+                            "a call that never returns is confirmed by a goroutine dump; a final probe request must succeed. Backups (taken by the same idle routine): "
+                            "Backup.tla (rotation rule) is model-checked and real Shard.Backup calls interleaved with write batches and pauses are "
+                            "validated by TLC against it (files present, and each file opened as a shard holds the content of the version it was taken at)")
     res.assumptions += ["one shard directory; requests are forced at the granularity of the H3 yield points",
                         "protocol-level disagreement between code and ShardMgr.tla with all monitors passing is reported as drift, not as a violation"]
 
